@@ -45,6 +45,7 @@ static struct Sched {
     int park_thr = -1, park_point = -1; bool parked = false;
     // ForkExec
     bool fork_mode = false; int fork_point = 0; int phase = 0;
+    int extra_point[MAXT] = {0}; bool extra_parked[MAXT] = {false}; bool extras_released = false;
     volatile int main_futex = 0;
     int max_overlap = 0, blocked_events = 0;
     bool aborting = false;
@@ -81,9 +82,20 @@ static int choose(int me) {
     if (cand.empty()) return -1;
     int pick = -1;
     if (S.fork_mode) {
-        // thread 1 (B) runs up to its fork point, then thread 0 (A, the forker) whenever it can, then B again
-        if (S.phase == 0) pick = runnable(1) ? 1 : cand[0];
-        else pick = runnable(0) ? 0 : cand[0];
+        // further parent threads (2..n-1) first run to their park points inside the library; then thread 1 (B) runs up to
+        // its fork point; then thread 0 (A, the forker) whenever it can; then everybody else finishes
+        auto avail = [&](int i) { return runnable(i) && !(S.extra_parked[i] && !S.extras_released); };
+        for (int i = 2; i < S.n && pick < 0 && !S.extras_released; i++)
+            if (S.t[i].state == TS_RUNNABLE && !S.extra_parked[i]) { if (S.t[i].points >= S.extra_point[i]) S.extra_parked[i] = true; else pick = i; }
+        if (pick < 0) {
+            if (S.phase == 0) pick = avail(1) ? 1 : -1;
+            else pick = avail(0) ? 0 : avail(1) ? 1 : -1;
+        }
+        if (pick < 0) {   // the preferred thread cannot run: let the parked ones go on (the forker may be waiting for a mutex they hold)
+            S.extras_released = true;
+            for (int c : cand) if (pick < 0) pick = c;
+        }
+        if (S.t[0].state == TS_DONE) S.extras_released = true;
         S.trace.push_back(pick);
         return pick;
     }
@@ -413,10 +425,23 @@ static void *b_body(void *) {
     return nullptr;
 }
 
+static ExecObs g_extra_obs[MAXT];
+static void *extra_body(void *p) {
+    int me = (int)(intptr_t)p;
+    t_thr = me; t_in_sut = 0; t_in_sim = 0;
+    fwait(&S.t[me].futex);
+    g_extra_obs[me] = ExecObs();
+    exec_call(g_fc.op->extra_calls[(size_t)me - 2], 2000 + me, g_extra_obs[me]);
+    finish_thread(me);
+    return nullptr;
+}
+
 void run_forkexec(const Plan &plan, int opi, const Op &op, RunResult &r) {
     (void)plan;
     S = Sched();
-    S.n = 2; S.fork_mode = true; S.fork_point = op.fork_point; S.phase = op.fork_point <= 0 ? 1 : 0;
+    int nextra = (int)op.extra_calls.size(); if (nextra > 6) nextra = 6;
+    S.n = 2 + nextra; S.fork_mode = true; S.fork_point = op.fork_point; S.phase = op.fork_point <= 0 ? 1 : 0;
+    for (int i = 0; i < nextra; i++) S.extra_point[2 + i] = op.extra_points[(size_t)i];
     while (r.obs.size() < (size_t)(opi + 1)) r.obs.emplace_back();
     g_fc.op = &op; g_fc.r = &r; g_fc.opi = opi;
     std::vector<char *> vec; char **saved = environ;
@@ -426,12 +451,15 @@ void run_forkexec(const Plan &plan, int opi, const Op &op, RunResult &r) {
     S.t[0].state = TS_RUNNABLE; S.t[1].state = TS_RUNNABLE;
     pthread_create(&S.t[0].th, nullptr, forker_body, nullptr);
     pthread_create(&S.t[1].th, nullptr, b_body, nullptr);
+    for (int i = 0; i < nextra; i++) { S.t[2 + i].state = TS_RUNNABLE; pthread_create(&S.t[2 + i].th, nullptr, extra_body, (void *)(intptr_t)(2 + i)); }
     int first = choose(-1);
     fwake(&S.t[first].futex);
     fwait(&S.main_futex);
     r.schedule = S.trace; r.sched_points = S.t[1].points; r.max_overlap = S.max_overlap; r.blocked_on_mutex = S.blocked_events;
     if (!S.aborting) {
         pthread_join(S.t[0].th, nullptr); if (S.t[1].state != TS_GONE) pthread_join(S.t[1].th, nullptr);
+        for (int i = 0; i < nextra; i++) pthread_join(S.t[2 + i].th, nullptr);
+        for (int i = 0; i < nextra; i++) if (g_extra_obs[2 + i].real_calls != 1 && G.abort_class.empty()) { G.abort_class = "parent-thread-disturbed"; G.abort_detail = "a further parent thread reached the real exec " + std::to_string(g_extra_obs[2 + i].real_calls) + " times"; }
         environ = saved; for (char *c : vec) free(c);
     }
     G.multi = false;
